@@ -10,7 +10,7 @@ Section Claims.
   Variable hempty : Hsh.
   Variable hleaf : key -> V -> Hsh.
   Variable hbranch : Hsh -> Hsh -> Hsh.
-  Hypothesis leaf_inj : forall k v k' v', hleaf k v = hleaf k' v' -> k = k' /\ v = v'.
+  Hypothesis leaf_inj : forall k v k' v', length k = length k' -> hleaf k v = hleaf k' v' -> k = k' /\ v = v'.
   Hypothesis leaf_not_branch : forall k v a b, hleaf k v <> hbranch a b.
   Hypothesis leaf_not_empty : forall k v, hleaf k v <> hempty.
   Hypothesis branch_not_empty : forall a b, hbranch a b <> hempty.
@@ -24,16 +24,18 @@ Section Claims.
   Qed.
 
   Theorem node_claims : forall n (t nd : @T V) p, wf n 0 t -> subtree_at t p = Some nd ->
-    (forall qk v, hash nd = hleaf qk v ->
+    (forall qk v, length qk = n -> hash nd = hleaf qk v ->
        In (qk, v) (tomap t) /\ forall k v', In (k, v') (tomap t) -> firstn (length p) k = p -> k = qk /\ v' = v) /\
     (hash nd = hempty -> forall k v', In (k, v') (tomap t) -> firstn (length p) k <> p).
   Proof.
     intros n t nd p Hwf Hs. split.
-    - intros qk v Hh.
+    - intros qk v Hqk Hh.
       assert (Hnd : nd = L qk v).
       { destruct nd as [|k0 v0|l r]; cbn [Tree.hash] in Hh.
         - symmetry in Hh. apply leaf_not_empty in Hh. contradiction.
-        - apply leaf_inj in Hh. destruct Hh; subst; reflexivity.
+        - assert (Hin0 : In (k0, v0) (tomap t)) by (eapply subtree_incl; eauto; left; reflexivity).
+          pose proof (wf_keys t n 0 (k0, v0) Hwf Hin0) as Hl0. cbn [fst Nat.add] in Hl0.
+          apply leaf_inj in Hh; [|lia]. destruct Hh; subst; reflexivity.
         - symmetry in Hh. apply leaf_not_branch in Hh. contradiction. }
       subst nd. split.
       + eapply subtree_incl; eauto. left; reflexivity.
